@@ -88,6 +88,8 @@ def configs(max_deps):
     return out
 
 
+VC_SEQUENCE = [['c1']]   # SEQUENCE of the brand-new app vc ([] in the
+                         # configurations marked vc-sequence-empty)
 VAB_LABEL = ['b1']      # the label of app vab's evolution (scenarios may
                         # set it to 'a2' so that two apps share a label)
 
@@ -124,8 +126,9 @@ def install(version, deps, applied_a1=False):
             VAB_LABEL[0]: body('vab', 'b1', [['AddField', 'Thing', 'n1', 'Int',
                                       {'null': True}, None]])},
             'top': dmap.get(('vab', None), {})}
-        evos['vc'] = {'SEQUENCE': ['c1'], 'modules': {
-            'c1': {'MUTATIONS': []}}, 'top': dmap.get(('vc', None), {})}
+        evos['vc'] = {'SEQUENCE': list(VC_SEQUENCE[0]), 'modules': {
+            l: {'MUTATIONS': []} for l in VC_SEQUENCE[0]},
+            'top': dmap.get(('vc', None), {})}
     migs = {'vm': [('0001_initial', MIG1), ('0002_add_x', MIG2)]} \
         if version >= 2 else None
     return MZ.install(proj, evolutions=evos, migrations=migs)
@@ -209,7 +212,15 @@ def start_image(applied_a1):
     return _images[key]
 
 
-def run_config(deps, applied_a1, add, stats):
+def run_config(deps, applied_a1, add, stats, vc_empty=False):
+    VC_SEQUENCE[0] = [] if vc_empty else ['c1']
+    try:
+        return _run_config(deps, applied_a1, add, stats, vc_empty)
+    finally:
+        VC_SEQUENCE[0] = ['c1']
+
+
+def _run_config(deps, applied_a1, add, stats, vc_empty):
     stats['configs'] += 1
     applied = {('va', 'a1')} if applied_a1 else set()
     units, edges = required_edges(deps, applied)
@@ -233,8 +244,10 @@ def run_config(deps, applied_a1, add, stats):
             payload_order.append([tuple(e) for e in p['evolutions']])
     replay = {'deps': [[list(h), [k, list(t) if isinstance(t, tuple)
                                   else t]] for (h, (k, t)) in deps],
-              'applied_a1': applied_a1}
+              'applied_a1': applied_a1, 'vc_empty': vc_empty}
     shape = dep_shape(deps)
+    if vc_empty:
+        shape += '|new-app-without-evolutions'
     if not ok_req:
         if res.ok:
             add('C09|pipeline|unsatisfiable-dependencies-not-reported|%s'
@@ -324,7 +337,8 @@ def dep_shape(deps):
 
 
 def work(task):
-    chunk, applied_a1 = task
+    chunk, applied_a1 = task[:2]
+    vc_empty = task[2] if len(task) > 2 else False
     stats = {'configs': 0, 'nontrivial': 0, 'cyclic': 0, 'samples': []}
     viol = {}
     if chunk == 'handover':
@@ -333,7 +347,10 @@ def work(task):
                                  'detail': detail,
                                  'size': len(S.canon(replay))})
             viol[fp]['count'] += 1
-        handover_scenario(applied_a1, add_h, stats)
+        if applied_a1 == 'fresh':
+            handover_fresh_scenario(add_h, stats)
+        else:
+            handover_scenario(applied_a1, add_h, stats)
         return stats, viol
 
     def add(fp, replay, detail):
@@ -347,7 +364,7 @@ def work(task):
             if size < ent['size']:
                 ent.update(exemplar=replay, detail=detail, size=size)
     for deps in chunk:
-        run_config(deps, applied_a1, add, stats)
+        run_config(deps, applied_a1, add, stats, vc_empty)
     if chunk:
         stats['samples'].append({'deps': str(chunk[-1]),
                                  'applied_a1': applied_a1})
@@ -474,6 +491,82 @@ def handover_scenario(idx, add, stats):
             break
 
 
+VH_MIG1_PLAIN = """from django.db import migrations, models
+
+
+class Migration(migrations.Migration):
+    initial = True
+    dependencies = []
+    operations = [migrations.CreateModel(name='Note', fields=[
+        ('id', models.AutoField(auto_created=True, primary_key=True,
+                                serialize=False, verbose_name='ID')),
+        ('t', models.CharField(max_length=20)),
+    ])]
+"""
+VH_MIG2 = """from django.db import migrations, models
+
+
+class Migration(migrations.Migration):
+    dependencies = [('vh', '0001_initial')]
+    operations = [migrations.AddField(model_name='note', name='n1',
+                                      field=models.IntegerField(null=True))]
+"""
+
+
+def handover_fresh_scenario(add, stats):
+    """Fresh install of an app whose hand-over evolution marks TWO
+    migrations as applied, next to a brand-new app that must be created
+    AFTER that evolution: the dependency MoveToDjangoMigrations generates
+    covers every marked migration, so both run before the other app's
+    tables are created."""
+    from django_evolution.mutations import MoveToDjangoMigrations
+    stats['configs'] += 1
+    stats['handover_configs'] = stats.get('handover_configs', 0) + 1
+    for marked in (['0001_initial', '0002_add_n1'], ['0001_initial']):
+        apps = [A('vh', [M('Note', [F('t', 'Char', max_length=20),
+                                    F('n1', 'Int', null=True)])]),
+                A('vz', [M('Zed', [F('tag', 'Char', max_length=20)])])]
+        evos = {
+            'vh': {'SEQUENCE': ['h1'], 'modules': {'h1': {'MUTATIONS': [
+                MoveToDjangoMigrations(mark_applied=list(marked))]}}},
+            'vz': {'SEQUENCE': [], 'modules': {},
+                   'top': {'AFTER_EVOLUTIONS': [('vh', 'h1')]}}}
+        MZ.install(P(*apps), evolutions=evos,
+                   migrations={'vh': [('0001_initial', VH_MIG1_PLAIN),
+                                      ('0002_add_n1', VH_MIG2)]})
+        B.fresh_db('default')
+        B.reset_globals()
+        tracer = O.Tracer('default')
+        res = D.d2_all(tracer=tracer)
+        replay = {'scenario': 'handover-fresh', 'marked': marked}
+        shape = 'handover-fresh:marked-%d' % len(marked)
+        if not res.ok:
+            add('C09|pipeline|satisfiable-dependencies-rejected|%s|%s' % (
+                res.exc_type, shape), replay, {'error': str(res.exc)[:300]})
+            continue
+        order = []
+        for sql, _p in tracer.effects():
+            s_ = sql.strip()
+            if s_.startswith('CREATE TABLE "vh_note"'):
+                order.append('m1')
+            elif 'vh_note' in s_ and '"n1"' in s_ and 'm2' not in order \
+                    and 'm1' in order and not s_.startswith('INSERT'):
+                order.append('m2')
+            elif s_.startswith('CREATE TABLE "vz_zed"'):
+                order.append('c')
+        want_before_c = ['m1', 'm2'] if len(marked) == 2 else ['m1']
+        if 'c' not in order or 'm1' not in order or 'm2' not in order:
+            add('C09|pipeline|units-not-executed-exactly-once|%s' % shape,
+                replay, {'order': order})
+            continue
+        for u in want_before_c:
+            if order.index(u) > order.index('c'):
+                add('C09|pipeline|dependency-violated|migration-must-'
+                    'precede-model-creation|%s' % shape, replay,
+                    {'order': order})
+                break
+
+
 def run_part(tier, seed, coll):
     from vf import bootstrap
     from vf.checks import common
@@ -485,8 +578,14 @@ def run_part(tier, seed, coll):
     singles = configs(1)
     for lo in range(0, len(singles), 12):
         tasks.append((singles[lo:lo + 12], True))
+    # the brand-new app declares app-level dependencies but ships no
+    # evolution of its own (SEQUENCE = [])
+    vc_cfgs = [c for c in singles if c and c[0][0] == ('vc', None)]
+    for lo in range(0, len(vc_cfgs), 12):
+        tasks.append((vc_cfgs[lo:lo + 12], False, True))
     for i in range(len(HANDOVER_DEPS)):
         tasks.append(('handover', i))
+    tasks.append(('handover', 'fresh'))
     total = {}
     for stats, viol in explore.run_tasks('vf.checks.c09_pipeline.work',
                                          tasks, seed=seed):
@@ -499,6 +598,17 @@ def run_part(tier, seed, coll):
 
 def replay(doc):
     r = doc['replay']
+    if r.get('scenario') == 'handover-fresh':
+        found = {}
+        handover_fresh_scenario(lambda fp, rp, d: found.setdefault(fp, d),
+                                {'configs': 0})
+        for fp, d in found.items():
+            print('  %s %s' % (fp, str(d)[:500]))
+        if doc['fingerprint'] in found:
+            print('REPRODUCED %s' % doc['fingerprint'])
+            return 1
+        print('NOT-REPRODUCED')
+        return 0
     if r.get('scenario') == 'handover':
         found = {}
         handover_scenario(r['index'],
@@ -520,7 +630,7 @@ def replay(doc):
     def add(fp, replay, detail):
         found[fp] = detail
     stats = {'configs': 0, 'nontrivial': 0, 'cyclic': 0}
-    run_config(deps, r['applied_a1'], add, stats)
+    run_config(deps, r['applied_a1'], add, stats, r.get('vc_empty', False))
     for fp, d in found.items():
         print('  %s %s' % (fp, str(d)[:500]))
     if doc['fingerprint'] in found:
